@@ -443,6 +443,58 @@ def run(ctx):
         ctx.ob(R5, reb.qual, "the encoded body is what is sent", ok_b, "" if ok_b else f"events {evs_txt[:200]}", witness=r.witness(), node=reb.node)
     ctx.sites(R5, n5, 1, "rows of request_encode_body that encode multipart")
 
+    from ..rows import helper_closure
+    from ..terms import subterms
+    # ---------------- R6 each part owns its header mapping
+    R6 = ctx.rule("C20-R6", "each part owns its headers: RequestField.__init__ stores a fresh mapping (a new dict, or a copy of the caller's), never the caller's object - make_multipart() writes Content-Disposition / Content-Type into it, so a mapping shared by two fields would give every part the last field's name", "E10 effect rows")
+    rf_init = m.method("urllib3.fields.RequestField", "__init__")
+    hp = "p:headers" if "headers" in rf_init.params() else None
+    if hp is None:
+        raise AnalysisError("RequestField.__init__ has no `headers` parameter")
+    rows6 = [r for r in effect_rows(ctx, rf_init, GenRule(ctx, rf_init.module, inline=frozenset(helper_closure(m, [rf_init]) - {rf_init.qual})), rf_init.clsq) if r.returns]
+    ctx.sites(R6, len(rows6), 2, "returning rows of RequestField.__init__")
+    seen6 = set()
+    for r in rows6:
+        st6 = [e[3] for e in r.events("store") if e[1] == "self" and e[2] == "headers"]
+        final = st6[-1] if st6 else None
+        if final in seen6:
+            continue
+        seen6.add(final)
+        op6, a6 = destruct(final) if final else (None, ())
+        fresh = final is not None and (final == "?" and not r.truth(hp) or op6 in ("dict", "copy", "new:dict", "new:HTTPHeaderDict") or (op6 is None and final in ("dict()", "{}")))
+        if final == "?":
+            fresh = True  # a dict display built in place
+        aliased = final is not None and hp in set(subterms(final)) and op6 not in ("dict", "copy") and final == hp
+        ok = final is not None and not aliased and fresh
+        ctx.ob(R6, rf_init.qual, f"headers stored: {final}", ok, "" if ok else "the field keeps the caller's mapping itself: fields built with one shared headers dict overwrite each other's Content-Disposition", witness=r.witness(), node=rf_init.node)
+
+    # ---------------- R7 containers are told apart by the declared interface
+    R7 = ctx.rule("C20-R7", "a mapping of fields is read pair by pair: iter_field_objects takes .items() for every Mapping (the declared input type), not only for dict - otherwise the keys of a non-dict mapping are star-unpacked as (name, value...) tuples and the body carries garbage", "E10 effect rows + class lattice")
+    ifo = m.func(f"{FP}.iter_field_objects")
+    rows7 = effect_rows(ctx, ifo, GenRule(ctx, ifo.module, inline=frozenset(helper_closure(m, [ifo]) - {ifo.qual})), None)
+    pf = "p:" + ifo.params()[0]
+    n7 = 0
+    seen7 = set()
+    for r in rows7:
+        ys = [e for e in r.ev if e[0] == "yield"]
+        if not ys:
+            continue
+        loops = {e[-1][1:] for e in ys if isinstance(e[-1], tuple) and e[-1][:1] == ("in",)}
+        over_items = any(any("items(" + pf in str(l_) or f"{pf}.items" in str(l_) for l_ in ls) for ls in loops)
+        memo = [(k_[2], v_) for k_, v_ in r.st.ts.items() if isinstance(k_, tuple) and k_[0] == "isinst" and k_[1] == pf]
+        key7 = (over_items, tuple(sorted(map(str, memo))))
+        if key7 in seen7:
+            continue
+        seen7.add(key7)
+        n7 += 1
+        if over_items:
+            continue  # pairs of a mapping: fine whatever selected it
+        # iterated directly: the path must have excluded every Mapping
+        excl = any(v_ is False and any(c_ in ("typing.Mapping", "collections.abc.Mapping", "_collections_abc.Mapping") for c_ in cls_) for cls_, v_ in memo)
+        ctx.ob(R7, ifo.qual, f"fields iterated element-wise only when it is not a Mapping (decisions {memo})", excl,
+               "" if excl else "a Mapping that is not covered by the test is iterated as keys: each key string is unpacked as a (name, value) tuple", witness=r.witness(), node=ifo.node)
+    ctx.sites(R7, n7, 2, "yielding rows of iter_field_objects")
+
 
 # ---------------------------------------------------------------------------- R2
 FORBIDDEN = {10: "%0A", 13: "%0D", 34: "%22"}
